@@ -145,6 +145,34 @@ func c11Positions(c *Ctx, idx int) {
 			}
 		}
 	}
+	if idx%100 == 75 {
+		// subjects of 4000..9000 code points; the needle sits just before / at / after large
+		// start offsets, in texts whose characters straddle 4 KiB (and 512 B, 64 B) block boundaries
+		unit := gen.Pick(r, []string{"€", "日本", "aé", "a€", "€𝌆", "ab€", "é"})
+		units := []rune(unit)
+		total := 4090 + r.Intn(5000)
+		rs2 := make([]rune, total)
+		for i := range rs2 {
+			rs2[i] = units[i%len(units)]
+		}
+		for _, at := range []int{4093, 4094, 4095, 4096, 4097, 1364, 1365, 1366, 2047, 2048, 8190, 8191} {
+			if at >= total {
+				continue
+			}
+			sub2 := append([]rune{}, rs2...)
+			sub2[at] = 'x'
+			ldoc := ref.NewObj()
+			ldoc.Set("s", string(sub2))
+			for _, st := range []int{at - 2, at - 1, at, at + 1, at + 2, 4096, 4095, 8192, total - 1, total} {
+				if st < 0 {
+					continue
+				}
+				for _, f := range []string{fmt.Sprintf("find_first(s, 'x', `%d`)", st), fmt.Sprintf("find_last(s, 'x', `%d`)", st), fmt.Sprintf("find_first(s, 'x', `%d`, `%d`)", st, total), fmt.Sprintf("find_last(s, 'x', `0`, `%d`)", st), fmt.Sprintf("find_first(s, %s, `%d`)", ref.RawString(string(units[:1])), st), fmt.Sprintf("s[%d:%d]", st, st+3), fmt.Sprintf("length(s[%d:])", st)} {
+					nontriv(c.c11Check(f, ldoc), f)
+				}
+			}
+		}
+	}
 	for _, f := range []string{"length(s)", "reverse(s)", "s[::-1]", "reverse(s) == s[::-1]", "split(s, '')", "length(split(s, '')) == length(s)", "join('', split(s, '')) == s", "find_first(s, sub)", "find_last(s, sub)", "contains(s, sub)", "starts_with(s, sub)", "ends_with(s, sub)", "replace(s, sub, 'é𝌆')", "split(s, sub)", "trim(s, sub)", "trim_left(s, sub)", "trim_right(s, sub)", "pad_left(s, length(s))", "[s, sub] | sort(@)", "max([s, sub])", "min([s, sub])", "s == sub", "join(sub, [s, s])"} {
 		nontriv(c.c11Check(f, doc), f)
 	}
@@ -374,7 +402,7 @@ func c11Rename(c *Ctx, idx int) {
 func init() {
 	Register(&Property{
 		ID:            "C11",
-		Rule:          "strings over an alphabet of 1- to 4-byte code points, combining marks, U+FFFD, U+10FFFF and the empty string (length 0..6, some up to 200, and strings of one encoded width only - 1, 2, 3 or 4 bytes - or two widths, at lengths 15..257 around the usual block sizes): every position parameter over [-len-2, len+2] and +-2^31/2^62 through slices, find_first/find_last (2-4 arguments), pad_left/pad_right (pad characters of every width; widths up to 130, and widths of 2^18 .. 2^20+1 whose results are 0.3-4.4 MB), split on '' and on substrings with counts, replace with counts, plus length/reverse/join/trim/contains/starts_with/ends_with/sort/min/max(_by) incl. pairs ordered differently by UTF-16 unit and by code point - compared with the reference model on code points; every string in every result checked for UTF-8 validity; renaming relation: a-z mapped order-preservingly to 2-, 3- and 4-byte letters in expression and data must rename the result the same way (library against itself); non-trivial = model decides (positions/order), result contains renamed letters (renaming)",
+		Rule:          "strings over an alphabet of 1- to 4-byte code points, combining marks, U+FFFD, U+10FFFF and the empty string (length 0..6, some up to 200, some of 4000-9000 code points with the needle placed around offsets 1365, 2048, 4096 and 8191, and strings of one encoded width only - 1, 2, 3 or 4 bytes - or two widths, at lengths 15..257 around the usual block sizes): every position parameter over [-len-2, len+2] and +-2^31/2^62 through slices, find_first/find_last (2-4 arguments), pad_left/pad_right (pad characters of every width; widths up to 130, and widths of 2^18 .. 2^20+1 whose results are 0.3-4.4 MB), split on '' and on substrings with counts, replace with counts, plus length/reverse/join/trim/contains/starts_with/ends_with/sort/min/max(_by) incl. pairs ordered differently by UTF-16 unit and by code point - compared with the reference model on code points; every string in every result checked for UTF-8 validity; renaming relation: a-z mapped order-preservingly to 2-, 3- and 4-byte letters in expression and data must rename the result the same way (library against itself); non-trivial = model decides (positions/order), result contains renamed letters (renaming)",
 		MinNontrivial: 5000,
 		Streams: []Stream{
 			{Name: "positions", N: func(c *Ctx) int { return tierN(c, 1500, 100000) }, Run: c11Positions},
